@@ -396,7 +396,9 @@ func H_C10_prechecks() {
 	}
 	vReach("perturbed")
 	err := s.Verify(key, rrs)
-	vObserve("precheck", what, same, err)
+	if what != 12 { // (a replaced signature octet: whether it is "the same" depends on stub vs real signature octets)
+		vObserve("precheck", what, same, err)
+	}
 	if err == nil {
 		vAssert(same, "verify-succeeds-only-for-the-signed-value")
 		vAssert(key.Flags&ZONE != 0 && key.Protocol == 3, "verify-succeeds-only-for-zone-key-protocol-3")
